@@ -21,7 +21,9 @@ DIMS = [
     ('pre', ['none', 'blank2', 'comment', 'formfeed', 'formfeed_in_comment']),
     ('decos', [0, 1, 2]),
     ('nest', ['func', 'method', 'cls', 'module', 'asyncfunc']),
-    ('opener', ['"""', "'''", 'r"""', 'R"""', 'u"""', '"""Summary', '"""+summary+blank', '"""+blank2']),
+    ('opener', ['"""', "'''", 'r"""', 'R"""', 'u"""', '"""Summary', '"""+summary+blank', '"""+blank2',
+                # the literal shares its first line with the def / class header, or is parenthesised
+                'defline', 'paren']),
     ('layout', ['free_first', 'free_prose', 'two_groups', 'google', 'google_after_args', 'google_second',
                 'free_after_ignored', 'free_ignored_between']),
     ('fail', ['none', 'exc1', 'exc_ml', 'helper', 'modfunc', 'want1', 'want2',
@@ -29,12 +31,12 @@ DIMS = [
     ('pos', ['last', 'first', 'middle']),
     ('before', ['nothing', 'want', 'multiline']),
     # what follows the closing quotes on their line
-    ('closer', ['plain', 'comment', 'comment_apostrophe', 'comment_dquote']),
+    ('closer', ['plain', 'comment', 'comment_apostrophe', 'comment_dquote', 'stmt_after']),
     # shape of the def / class header above the docstring
     ('sig', ['plain', 'multiline', 'annot', 'comment_after_colon', 'multiline_deco']),
 ]
 STYLES = ['auto', 'google', 'freeform']
-ESCAPES = {'esc_t': '\\t', 'esc_n': '\\n', 'esc_x0a': '\\x0a', 'cont': None, 'esc_r': '\\r', 'esc_f': '\\f', 'esc_v': '\\v',
+ESCAPES = {'esc_t': '\\t', 'esc_n': '\\n', 'esc_n30': '\\n' * 30, 'esc_x0a': '\\x0a', 'cont': None, 'esc_r': '\\r', 'esc_f': '\\f', 'esc_v': '\\v',
            'esc_x1c': '\\x1c', 'esc_x85': '\\x85', 'esc_u2028': '\\u2028'}
 
 
@@ -181,6 +183,10 @@ def build(cfg):
         w.emit(I + '"""')
         w.emit('')
         w.emit('')
+    elif opener == 'defline' and nest != 'module':
+        w.lines[-1] += ' ' + q
+    elif opener == 'paren':
+        w.emit(I + '(' + q)
     else:
         w.emit(I + prefix + q)
     prose = cfg.get('prose')
@@ -259,11 +265,14 @@ def build(cfg):
         w.emit('')
         w.emit(I + 'Example:')
         blocks.append(emit_body(I + '    ', 1))
-    w.emit(I + q + {'plain': '', 'comment': '  # noqa: E501', 'comment_apostrophe': "  # don't reformat",
-                    'comment_dquote': '  # see the "usage" section'}[cfg.get('closer', 'plain')])
+    w.emit(I + q + (')' if opener == 'paren' else '') +
+           {'plain': '', 'comment': '  # noqa: E501', 'comment_apostrophe': "  # don't reformat",
+            'comment_dquote': '  # see the "usage" section', 'stmt_after': '; zz = 2'}[cfg.get('closer', 'plain')])
     if nest == 'module':
         w.emit('')
         header()
+    elif opener == 'defline':
+        w.emit('')              # the docstring is the whole (one-statement) body of the header line
     elif nest == 'cls':
         w.emit('    z = 0')
     else:
@@ -314,6 +323,8 @@ class LinenoSpec(Spec):
                 continue
             if name == 'pos' and cfg.get('fail') == 'none' and v != 'last':
                 continue
+            if name == 'sig' and v == 'comment_after_colon' and cfg.get('opener') == 'defline':
+                continue       # the quotes would open inside the comment
             out.append(v)
         return out
 
